@@ -29,6 +29,7 @@ type dbgPlan struct {
 	BPs          []dbgBP  `json:"breakpoints"`
 	BreakOnStart bool     `json:"break_on_start,omitempty"`
 	ResumeOnly   bool     `json:"resume_only,omitempty"` // C15(c): static breakpoints, resume commands only, break-on-error off
+	StopAtRound  int      `json:"stop_threads_at_round,omitempty"` // C15: StopThreads() while the program runs / threads are suspended
 	Lines        int      `json:"lines"`
 	// C16 only
 	Garbage bool `json:"garbage,omitempty"`
@@ -97,6 +98,9 @@ func dbgGen(r *simrt.RNG, tier string, garbage bool) interface{} {
 		p.BPs = append(p.BPs, bp)
 	}
 	p.BreakOnStart = !p.ResumeOnly && r.Bool(0.3)
+	if !garbage && !p.ResumeOnly && r.Bool(0.15) {
+		p.StopAtRound = 1 + r.Intn(6)
+	}
 	return p
 }
 
@@ -118,6 +122,11 @@ func dbgShrink(pi interface{}) []interface{} {
 	if p.BreakOnStart {
 		q := clone()
 		q.BreakOnStart = false
+		out = append(out, q)
+	}
+	if p.StopAtRound > 1 {
+		q := clone()
+		q.StopAtRound--
 		out = append(out, q)
 	}
 	// dropping a block shifts line numbers: re-map is not attempted, breakpoints are kept as numbers
@@ -334,8 +343,16 @@ func dbgExec(p *dbgPlan, src string, withDebugger bool, prop string) dbgOutcome 
 	}
 	round := 0
 	idleRounds := 0
-	for !mainDone.get() {
+	stopped := false
+	for !mainDone.get() && !mainTask.IsDone() {
 		round++
+		if p.StopAtRound > 0 && round >= p.StopAtRound && !stopped && len(dbgSuspended(dbg, prop)) > 0 {
+			// stop all threads while at least one is suspended: every suspended thread must be
+			// released (it ends at its next state change), the debugger must stay usable
+			stopped = true
+			simrt.Count("fault_stop_threads_while_suspended")
+			dbg.StopThreads(0)
+		}
 		for _, bp := range p.BPs {
 			if bp.When == round {
 				applyBP(bp)
@@ -389,6 +406,9 @@ func dbgExec(p *dbgPlan, src string, withDebugger bool, prop string) dbgOutcome 
 		if mainDone.get() {
 			break
 		}
+		if stopped && len(suspended) == 0 && simrt.OthersQuiescent() && len(dbgSuspended(dbg, prop)) == 0 {
+			break // what is left of the program (threads were killed) cannot go on; that is expected
+		}
 		if len(suspended) == 0 && simrt.OthersQuiescent() {
 			// nobody else can take a step and there is nothing to resume: check once more
 			if len(dbgSuspended(dbg, prop)) == 0 && !mainDone.get() {
@@ -404,6 +424,14 @@ func dbgExec(p *dbgPlan, src string, withDebugger bool, prop string) dbgOutcome 
 		}
 		simrt.Yield()
 	}
+	if stopped {
+		for _, b := range simrt.BlockedTasks() {
+			if strings.Contains(b, "waitForContinue") || strings.Contains(b, "ecalDebugger") {
+				simrt.Fail("oracle:stop-threads", "stop-did-not-release", "after StopThreads a thread is still blocked inside the debugger: %s", b)
+			}
+		}
+		dbgCmd(dbg, prop, "status") // the debugger must still answer
+	}
 	stopClients.set()
 	clients.Wait()
 	if prop == "C16" && p.Garbage {
@@ -412,7 +440,9 @@ func dbgExec(p *dbgPlan, src string, withDebugger bool, prop string) dbgOutcome 
 		}
 	}
 	dbg.StopThreads(0)
-	erp.Processor.Finish()
+	if !stopped {
+		erp.Processor.Finish()
+	} // (after a mid-run stop pool workers may have been killed with tasks still queued: nothing to join)
 	out.logs = logger.Slice()
 	out.scope = vs.String()
 
@@ -636,8 +666,8 @@ func dbgRun(p *dbgPlan, prop string) {
 	src, sinks := dbgProgram(p)
 	plain := dbgExec(p, src, false, prop)
 	dbgd := dbgExec(p, src, true, prop)
-	if prop != "C15" {
-		return
+	if prop != "C15" || p.StopAtRound > 0 {
+		return // (a run whose threads were stopped is not compared with the plain run)
 	}
 	if plain.result != dbgd.result {
 		simrt.Fail("oracle:transparency", "transparency/result", "result differs: plain %q, debugged %q\n%s", plain.result, dbgd.result, src)
